@@ -30,6 +30,48 @@ func c05(c *Ctx) {
 	r.Rule("R05.S", "pad-strip range: every cut point len-p, p in 0..15, is tried and no cut point is negative; the 20-byte hash prefix split is length-guarded", 2)
 	r.Rule("R05.B", "the caller's input buffer is never written: a cipher field that may hold a window of the input during a call is never the destination of xor / copy / the block cipher / an element store in that call (including deferred clean-up)", 2)
 	c05Buffers(c)
+	// the message-level wrappers refuse exactly what the cipher refuses: every non-nil error ige.Encrypt / ige.Decrypt
+	// return is an error a callee returned (cipher construction, the length check inside the block loop), never one
+	// they make themselves - a size limit of their own refuses whole numbers of blocks the property promises to decrypt
+	for _, name := range []string{"Encrypt", "Decrypt"} {
+		f := c.fn("R05.V", load.IgePkg, "", name)
+		if f == nil {
+			continue
+		}
+		var bad []string
+		n := 0
+		for _, b := range f.Blocks {
+			ret, ok := an.AsReturn(b.Instrs[len(b.Instrs)-1])
+			if !ok || len(ret.Results) != 2 {
+				continue
+			}
+			ev := an.RetVal(ret, 1)
+			if an.IsNilConst(ev) {
+				continue
+			}
+			n++
+			fromCallee := false
+			switch x := ev.(type) {
+			case *ssa.Extract:
+				_, fromCallee = x.Tuple.(*ssa.Call)
+			case *ssa.Call:
+				// a wrapper of a callee's error (errors.Wrap(err, ...)) or the error result of a one-result callee
+				if g := an.StaticCallee(x.Common()); g != nil && load.FuncPkgPath(g) == load.IgePkg {
+					fromCallee = true
+				} else if len(x.Call.Args) > 0 {
+					if e2, isE := x.Call.Args[0].(*ssa.Extract); isE {
+						_, fromCallee = e2.Tuple.(*ssa.Call)
+					} else if c2, isC := x.Call.Args[0].(*ssa.Call); isC {
+						fromCallee = an.StaticCallee(c2.Common()) != nil
+					}
+				}
+			}
+			if !fromCallee {
+				bad = append(bad, "the exit at "+c.pos(ret.Pos())+" returns an error made by the wrapper itself ("+simplifyOrigin(an.NewTracer().OriginString(ev))+")")
+			}
+		}
+		r.Check(len(bad) == 0 && n > 0, "R05.V", "wrapper-refuses-only-what-the-cipher-refuses:"+name, c.pos(f.Pos()), sprintf("%d error exit(s); %s", n, strings.Join(bad, "; ")))
+	}
 	// the wrappers validate what they were given: the slice handed to the block loop by ige.Encrypt / ige.Decrypt is
 	// the padded copy / the caller's ciphertext itself, not a view cut down to whole blocks first (which would
 	// turn the refusal of a ragged length into a silent truncation)
